@@ -257,7 +257,7 @@ func TestVerifC10ScramblesuitCuts(t *testing.T) {
 		return
 	}
 	c := vf10Ev()
-	c.Rule("scramblesuit-cuts: valid exchanges with the reference server (UniformDH with minimum padding = 224-byte response; UniformDH with padding 17; ticket handshake), server stream = response + payload / NEW_TICKET / PRNG_SEED / empty / padding-only packets (~0.9 KiB): the stream the client reads is cut by EOF and by an injected read error at EVERY byte offset (quick: every offset within 2 of a field or packet boundary + stride 7), delivered in one segment and in 97-byte segments; a write error is injected at sampled offsets of what the client writes (hello and four application writes of 10/1500/0/3000 bytes: field and packet boundaries +-1, stride 211, thorough 13); oracle: no panic, no wedge, Dial / Read / Write in progress returns an error, exactly the payload of the complete packets in front of the cut is delivered, buffer gauges, deadline armed before the first Read and cleared after a successful handshake; non-trivial = cut behind the first 224 bytes or inside the client's application writes; distinct by construction")
+	c.Rule("scramblesuit-cuts: valid exchanges with the reference server (UniformDH with minimum padding = 224-byte response; UniformDH with padding 17; ticket handshake), server stream = response + payload / NEW_TICKET / PRNG_SEED / empty / padding-only packets (~0.9 KiB): the stream the client reads is cut by EOF and by an injected read error at EVERY byte offset (quick: every offset within 2 of a field or packet boundary + stride 7), delivered in one segment and in 97-byte segments; a write error is injected at sampled offsets of what the client writes (hello and four application writes of 10/1500/0/3000 bytes: field and packet boundaries +-1, stride 211, thorough 13); oracle: no panic, no wedge, Dial / Read / Write in progress returns an error, exactly the payload of the complete packets in front of the cut is delivered, buffer gauges, deadline armed before the first Read, never moved later during the exchange, and cleared after a successful handshake; non-trivial = cut behind the first 224 bytes or inside the client's application writes; distinct by construction")
 	shard, nshards := ev.IntEnv("VERIF_SHARD", 0), ev.IntEnv("VERIF_NSHARDS", 1)
 	var cases []vf10Cut
 	nt := map[vf10Cut]bool{}
